@@ -91,7 +91,19 @@ def _plan(draw):
             cast = {"i": "float", "f": "object", "b": "object", "s": "object", "d": "datetime64[s]", "t": "datetime64[D]",
                     "td": "timedelta64[m]"}[kind]
         kw["dtypes"] = {names[t]: cast}
-    if fmt == "csv" and all(c["kind"] in ("i", "f", "b", "s") for c in cols) and draw(st.integers(0, 2)) == 0:
+    blank = None
+    if fmt == "csv" and n and draw(st.integers(0, 4)) == 0:
+        # one column without a single value (every cell blank): still a column of the file, selectable like the others
+        c = cols[draw(st.integers(0, k - 1))]
+        c["kind"], c["vals"] = "f", [gen.NAN] * n
+        blank = c["name"]
+        if "dtypes" in kw:
+            kw["dtypes"].pop(blank, None)
+            if not kw["dtypes"]:
+                del kw["dtypes"]
+        if "columns" in kw and blank not in kw["columns"] and draw(st.booleans()):
+            kw["columns"] = kw["columns"] + [blank]
+    if fmt == "csv" and blank is None and all(c["kind"] in ("i", "f", "b", "s") for c in cols) and draw(st.integers(0, 2)) == 0:
         kw["raw_csv"] = True
     if fmt in ("csv", "lod_csv") and draw(st.integers(0, 4)) == 0:
         # header cells with leading / trailing blanks are names like any other
